@@ -18,9 +18,12 @@
    limit; a state reproduced by the non_negative loop body is a KKT point; the documented stand-alone call (order = None) raised: repaired by /repo a5b9e5b, the model follows
    (C13_admm_order_none_is_zero); n_iter_max = 0 raised: repaired by /repo fe4edf7, the model follows (C13_admm_zero_iterations); C13_admm_returns is full; a state reproduced by the l1_reg body meets the lasso
    conditions; fista's momentum recurrence is computed in the model (Model/NnlsMomentum.v) and is the sequence the rate theorems use;
-   hals_nnls with nonzero_rows=True and epsilon > 0 is the call with nonzero_rows=False. *)
+   hals_nnls with nonzero_rows=True and epsilon > 0 is the call with nonzero_rows=False.
+   Round 8: the list branch of fista (UtU = [A, B]) -- iterates >= epsilon; its gradient is the gradient of the row-major flattened
+   Kronecker problem; a fixed point of the projected step is a global minimiser of the matrix objective over the non-negative
+   orthant (A, B symmetric, the Kronecker form assumed positive semidefinite). *)
 From Coq Require Import List Arith Reals Lra QArith Qabs.
-From TLV Require Import Base.Ops Base.PyList Base.Tensor Base.RSum Model.Nnls Model.NnlsEntry Proofs.NnlsProofs Proofs.NnlsProofsDescent Proofs.NnlsProofsNz Proofs.NnlsProofsAdmm Proofs.NnlsProofsFista Proofs.NnlsProofsFista2 Proofs.NnlsProofsAset Proofs.NnlsProofsAsetCert Proofs.NnlsProofsAsetFull Proofs.NnlsProofsExamples Proofs.NnlsProofsConv Proofs.NnlsProofsStep Proofs.NnlsProofsEntry Proofs.NnlsProofsGap Proofs.NnlsProofsTol0 Proofs.NnlsProofsAsetRnd Proofs.NnlsProofsUnique Proofs.NnlsProofsLimit Proofs.NnlsProofsFistaRate Proofs.NnlsProofsEps Proofs.NnlsProofsAsetTerm Model.NnlsAdmm Proofs.NnlsProofsAdmmLoop Proofs.NnlsProofsAdmmWitness Model.NnlsMomentum Proofs.NnlsProofsMomentum Proofs.NnlsProofsNzEps Proofs.NnlsProofsAsetFallback Proofs.NnlsProofsAsetFallbackW.
+From TLV Require Import Base.Ops Base.PyList Base.Tensor Base.RSum Model.Nnls Model.NnlsEntry Proofs.NnlsProofs Proofs.NnlsProofsDescent Proofs.NnlsProofsNz Proofs.NnlsProofsAdmm Proofs.NnlsProofsFista Proofs.NnlsProofsFista2 Proofs.NnlsProofsFista2Opt Proofs.NnlsProofsAset Proofs.NnlsProofsAsetCert Proofs.NnlsProofsAsetFull Proofs.NnlsProofsExamples Proofs.NnlsProofsConv Proofs.NnlsProofsStep Proofs.NnlsProofsEntry Proofs.NnlsProofsGap Proofs.NnlsProofsTol0 Proofs.NnlsProofsAsetRnd Proofs.NnlsProofsUnique Proofs.NnlsProofsLimit Proofs.NnlsProofsFistaRate Proofs.NnlsProofsEps Proofs.NnlsProofsAsetTerm Model.NnlsAdmm Proofs.NnlsProofsAdmmLoop Proofs.NnlsProofsAdmmWitness Model.NnlsMomentum Proofs.NnlsProofsMomentum Proofs.NnlsProofsNzEps Proofs.NnlsProofsAsetFallback Proofs.NnlsProofsAsetFallbackW.
 From TLV Require Model.Prox.
 Import ListNotations.
 Open Scope R_scope.
@@ -1100,6 +1103,46 @@ Theorem C13_fista_list_kkt_is_fixed_point : forall (UtM A B : list (list R)) (r1
   fista2_new Rops UtM A B r2 true sp rd lr eps V = V.
 Proof. exact fista2_kkt_fixed_point. Qed.
 Print Assumptions C13_fista_list_kkt_is_fixed_point.
+
+(* FULL (round 8), list branch: every returned point of a run with at least one iteration is >= epsilon (non_negative=True) -- the
+   statement C13_fista_iterates_ge_eps for `isinstance(UtU, list)`, until now only a Python predicate on that branch *)
+Theorem C13_fista_list_iterates_ge_eps : forall (UtM A B : list (list R)) (r1 r2 : nat) (sp rd lr tol eps : R),
+  wfm r1 r1 A -> wfm r1 r2 UtM ->
+  forall (x0 : list (list R)) (betas : list R) (i j : nat), wfm r1 r2 x0 -> betas <> [] -> (i < r1)%nat -> (j < r2)%nat ->
+  eps <= mget Rops (fista2 Rops UtM A B r2 true sp rd lr tol eps x0 betas) i j.
+Proof. exact fista2_ge_eps. Qed.
+Print Assumptions C13_fista_list_iterates_ge_eps.
+
+(* FULL (round 8), list branch: fixed point of the projected step at epsilon = 0 => GLOBAL optimum.  obj2 is the matrix objective
+   <X, A X B^T>/2 - <UtM, X> + sp sum X + rd sum X^2 of the core update; a fixed point V minimises it over ALL entrywise non-negative Z.
+   A, B symmetric; positive semidefiniteness is assumed of the Kronecker form itself, quad (r1 r2) (kronG A B r2) with
+   kronG(p, q) = A[p / r2, q / r2] B[p mod r2, q mod r2] (row-major flattening p = i r2 + j): that A (x) B is PSD whenever A and B
+   are is NOT proved here.  The optimisation step is Base.RSum.kkt_optimal on the flattened problem (rsum_flat, qp_f_flat). *)
+Theorem C13_fista_list_fixed_point_optimal : forall (UtM A B : list (list R)) (r1 r2 : nat) (sp rd lr : R),
+  wfm r1 r1 A -> wfm r2 r2 B -> wfm r1 r2 UtM ->
+  forall V : list (list R),
+  (forall i k, mget Rops A i k = mget Rops A k i) -> (forall j l, mget Rops B j l = mget Rops B l j) ->
+  (forall d, 0 <= quad (r1 * r2) (kronG A B r2) d) -> 0 <= rd -> 0 < lr -> wfm r1 r2 V ->
+  fista2_new Rops UtM A B r2 true sp rd lr 0 V = V ->
+  forall Z : nat -> nat -> R, (forall i j, 0 <= Z i j) ->
+  obj2 UtM A B r1 r2 sp rd (fun i j => mget Rops V i j) <= obj2 UtM A B r1 r2 sp rd Z.
+Proof. exact fista2_fixed_point_optimal_matrix. Qed.
+Print Assumptions C13_fista_list_fixed_point_optimal.
+(* the gradient of the flattened Kronecker problem at p = i r2 + j is the gradient entry (i, j) of the list branch *)
+Theorem C13_fista_list_gradient_is_kronecker : forall (UtM A B : list (list R)) (r1 r2 : nat) (sp rd : R) (V : list (list R)) (i j : nat),
+  (j < r2)%nat ->
+  qp_grad (r1 * r2) (kronG A B r2) (flatf r2 UtM) sp rd (flatf r2 V) (i * r2 + j) =
+  rsum r1 (fun k => mget Rops A i k * rsum r2 (fun l => mget Rops V k l * mget Rops B j l)) - mget Rops UtM i j + sp + 2 * rd * mget Rops V i j.
+Proof. exact kron_grad_entry. Qed.
+Print Assumptions C13_fista_list_gradient_is_kronecker.
+(* non-vacuity: A = diag(2, 1), B = (1), UtM = (2, -1): V = (1, 0) (one inactive, one active bound) satisfies every hypothesis *)
+Example C13_fista_list_optimal_hypotheses_satisfiable :
+  wfm 2 2 f2_A /\ wfm 1 1 f2_B /\ wfm 2 1 f2_UtM /\ wfm 2 1 f2_V /\
+  (forall i k, mget Rops f2_A i k = mget Rops f2_A k i) /\ (forall j l, mget Rops f2_B j l = mget Rops f2_B l j) /\
+  (forall d, 0 <= quad (2 * 1) (kronG f2_A f2_B 1) d) /\
+  fista2_new Rops f2_UtM f2_A f2_B 1 true 0 0 (1 / 2) 0 f2_V = f2_V /\
+  mget Rops f2_V 0 0 = 1 /\ mget Rops f2_V 1 0 = 0.
+Proof. exact fista2_opt_hypotheses_satisfiable. Qed.
 
 (* regression of the former stopping-rule defect: UtU = [[2,1],[1,2]], UtM = (6,3), every parameter at its default
    (lr = 1/3, tol = 1e-8, x0 = 0; epsilon = 0).  After two iterations the point is (7/3, 2/3) and the step was
